@@ -235,12 +235,21 @@ func (w *walker) walk(v reflect.Value, path, norm string) {
 	case reflect.String:
 		muts := []string{"append"}
 		if v.Len() > 0 {
-			muts = append(muts, "chop")
+			// wrapP*: a LONGER string with the same value modulo the field prime — what felt.SetBytes
+			// makes of a string of 32 bytes or more (same prefix; prefix with the last digit bumped)
+			muts = append(muts, "chop", "wrapP", "wrapPbump")
 		}
 		w.visit(path, norm, "string", muts, siteCtx{Len: v.Len()}, func(m string) {
-			if m == "chop" {
+			switch m {
+			case "chop":
 				v.SetString(v.String()[:v.Len()-1])
-			} else {
+			case "wrapP":
+				v.SetString(wrapModP(v.String(), v.String()+"."))
+			case "wrapPbump":
+				b := []byte(v.String())
+				b[len(b)-1]++
+				v.SetString(wrapModP(v.String(), string(b)+"."))
+			default:
 				v.SetString(v.String() + "1")
 			}
 		})
@@ -500,6 +509,25 @@ func extraSierraClass() (felt.Felt, *core.SierraClass) {
 		panic(err)
 	}
 	return h, cls
+}
+
+var starkP, _ = new(big.Int).SetString("800000000000011000000000000000000000000000000000000000000000001", 16)
+
+// wrapModP returns prefix ++ 33 bytes such that the big-endian value of the result is congruent to
+// the value of orig modulo the Stark prime: felt.SetBytes maps both strings to the same felt.
+func wrapModP(orig, prefix string) string {
+	const tail = 33
+	v := new(big.Int).SetBytes([]byte(orig))
+	lo := new(big.Int).SetBytes(append([]byte(prefix), make([]byte, tail)...))
+	d := new(big.Int).Sub(v, lo)
+	d.Mod(d, starkP)
+	out := new(big.Int).Add(lo, d)
+	b := out.Bytes()
+	want := len(prefix) + tail
+	for len(b) < want {
+		b = append([]byte{0}, b...)
+	}
+	return string(b)
 }
 
 // enumerate lists the tamper sites of a bundle.
